@@ -5,8 +5,8 @@ set -e
 cd /verif
 C=$1
 git fetch -q $C main
-SHARED="DESIGN.md harness/src/main.rs lean/Driver/Main.lean lean/KonstVerif.lean harness/src/util.rs lean/Driver/Util.lean vlib/core.py vlib/gen_manifest.py"
-SKIP="vlib/registry.py MANIFEST.json known_findings.jsonl harness/Cargo.toml harness/Cargo.lock"
+SHARED="DESIGN.md known_findings.txt harness/src/main.rs lean/Driver/Main.lean lean/KonstVerif.lean harness/src/util.rs lean/Driver/Util.lean vlib/core.py vlib/gen_manifest.py"
+SKIP="anchors.sha256.json vlib/registry.py MANIFEST.json known_findings.jsonl harness/Cargo.toml harness/Cargo.lock"
 for f in $(git diff --name-only HEAD...FETCH_HEAD); do
   case " $SHARED $SKIP " in *" $f "*) continue;; esac
   case "$f" in evidence/*) continue;; esac
